@@ -225,6 +225,7 @@ def cases(tier):
     for i in range(0, len(bodies), 40):
         out.append(dict(kind='formulas', bodies=[list_of(b) for b in bodies[i:i + 40]]))
     out.append(dict(kind='probes'))
+    out.append(dict(kind='case'))
     for i in range(0, len(defs), max(1, len(defs) // 40)):
         out.append(dict(kind='formatting', d=defs[i], seed=i))
     return out
@@ -460,6 +461,36 @@ def run_probes(case):
     return viol, n
 
 
+CASE_MODELS = [
+    ('forms f and F', '[Potential-Form]\nf(r, a) = a*r\nF(r, a) = 100*a\ng(r) = f(r, 1) + F(r, 2)\n', 'g', lambda r: r + 200.0),
+    ('parameters A and a', '[Potential-Form]\nh(r, A, a) = A*r + a\n', 'h 1 100', lambda r: r + 100.0),
+    ('table TF and formula tf', '[Table-Form:TF]\nx : 0 1 2 3 4 5 6 7 8 9 10 11 12 13\ny : 9 9 9 9 9 9 9 9 9 9 9 9 9 9\n\n[Potential-Form]\ntf(r) = 2*r\nk(r) = tf(r) + TF(r)\n', 'k', lambda r: 2 * r + 9.0),
+    ('parameter R and the separation r', '[Potential-Form]\nm(r, R) = r + 10*R\n', 'm 3', lambda r: r + 30.0),
+]
+
+
+def run_case_variants(case):
+    """names that differ only in case: the formula language is case-insensitive, so such a model must either evaluate to its
+    documented meaning or be refused as a configuration error - never tabulate a different function"""
+    from atsim.potentials.config._common import ConfigurationException
+    viol = []
+    n = 0
+    for name, forms, use, fn in CASE_MODELS:
+        text = '[Tabulation]\ntarget : LAMMPS\nnr : 3\ncutoff : 2.0\n\n[Pair]\nA-B : >=0 %s\n\n%s' % (use, forms)
+        try:
+            tab = R.config_read(text)
+            f = tab.potentials[0].energy
+            for r in RS:
+                n += 1
+                got = f(r)
+                if abs(got - fn(r)) > 1e-12 * (abs(fn(r)) + 1.0):
+                    viol.append(dict(sig='case-insensitive-names-merged', msg='%s: accepted, but at r=%r the potential evaluates to %r, its documented meaning is %r' % (name, r, got, fn(r)), detail={'text': text}))
+                    break
+        except ConfigurationException:
+            n += 1
+    return viol, n
+
+
 # ------------------------------------------------------------------------------------------ formatting variants
 def variants(d, seed):
     """texts that must denote the same model as the canonical one"""
@@ -540,5 +571,5 @@ def run_formatting(case):
 
 
 def run_case(case):
-    viol, n = dict(defs=run_defs, formulas=run_formulas, probes=run_probes, formatting=run_formatting)[case['kind']](case)
+    viol, n = dict(defs=run_defs, formulas=run_formulas, probes=run_probes, formatting=run_formatting, case=run_case_variants)[case['kind']](case)
     return dict(outcome='ok:%s:%s' % (case['kind'], case.get('section', '')) if not viol else 'violation', nontrivial=True, evals=max(1, n), violations=viol)
